@@ -10,6 +10,31 @@ SKIPS = [None, "sat,sun", "mon", "fri,sat", "mon,tue,wed,thu,fri", "sun", "mon,t
 WD = {"mon": 0, "tue": 1, "wed": 2, "thu": 3, "fri": 4, "sat": 5, "sun": 6}
 
 
+def expected_alt(o1, o2, step_days, skip, alt_days):
+    """--alt-inc: a value that falls on a skipped weekday is moved by the alternative increment until it does not (or
+    leaves the range), the progression goes on from there; same direction as the increment only"""
+    skipset = set(WD[x] for x in skip.split(","))
+    if len(skipset) == 7:
+        return None
+    lo, hi = min(o1, o2), max(o1, o2)
+    inr = lambda x: lo <= x <= hi
+    sk = lambda x: (x - 1) % 7 in skipset
+
+    def this(x):
+        if not sk(x) and inr(x):
+            return x
+        while True:
+            x += alt_days
+            if not (sk(x) and inr(x)):
+                return x
+    out = []
+    cur = this(o1)
+    while inr(cur) and len(out) < 200000:
+        out.append(cur)
+        cur = this(cur + step_days)
+    return out
+
+
 def hms(s):
     s %= 86400
     return "%02d:%02d:%02d" % (s // 3600, s // 60 % 60, s % 60)
@@ -107,10 +132,18 @@ def case_task(task):
             if from_last:
                 argv += ["--compute-from-last"]
             exp = expected_dates(o1, o2, unit, n, skip, from_last)
+            altc = None
+            if skip and not from_last and unit in ("d", "w") and n != 0 and exp not in (None, "refused") and rng.random() < .5 \
+                    and (o2 - o1) * n >= 0 and dur.in_range(o1 - 8) and dur.in_range(o2 + 8) and dur.in_range(o1 + 8) and dur.in_range(o2 - 8):
+                # an alternative increment for values on skipped weekdays; nought (0d, 0) switches it off
+                altc = rng.choice(["1d", "2d", "0d", "0", "0d0h"]) if n > 0 else rng.choice(["-1d", "-3d", "0d", "0"])
+                argv += ["--alt-inc=" + altc]
+                if altc.strip("0dh") != "" and altc != "0":
+                    exp = expected_alt(o1, o2, n * (7 if unit == "w" else 1), skip, int(altc[:-1]))
             if exp is None:
                 continue
             exp_txt = exp if exp == "refused" else [addsweep.ktext(K, t) for t in exp]
-            cls = ("date", K, unit, "+" if n > 0 else "-" if n < 0 else "0", "skip" if skip else "noskip",
+            cls = ("date", K, unit, "+" if n > 0 else "-" if n < 0 else "0", ("skip" if skip else "noskip") + ("+alt" + ("0" if altc.strip("0dh") == "" else "") if altc else ""),
                    "from-last" if from_last else "fwd")
         elif kind == "time":
             form = rng.choice(["inc", "inc", "inc", "compound", "guess", "big"])
@@ -339,7 +372,7 @@ def main(tier, seed):
                 "more than expected+16 lines or 5 CPU-seconds is 'endless'. distinct_nontrivial = distinct (kind, calendar, "
                 "unit, sign, skip, from-last, outcome)")
     ctx.assumptions = ["compound date increments (1mo1d) and single-argument forms are not judged",
-                       "time bounds with FIRST == LAST: one element and a full circle (ending on LAST under --compute-from-last) both meet the statement",
+                       "--alt-inc is driven for day/week steps in the direction of INC only (nought switches it off)", "time bounds with FIRST == LAST: one element and a full circle (ending on LAST under --compute-from-last) both meet the statement",
                        "FIRST + INC must lie inside the supported calendar range",
                        "business-day increments are judged from business-day starts"]
     ctx.min_evals = 2000
